@@ -19,4 +19,4 @@ for C in "$@"; do
   grep -m1 -A3 VIOLATION /tmp/mw-out/$NAME/$C.out | sed -n '2,4p' | cut -c1-220
 done
 git -C /repo worktree remove --force $WT
-T=$(echo -n "$WT" | md5sum | cut -c1-8); rm -rf /verif/.build/crate-$T /verif/.build/bin-$T
+T=$(echo -n "$WT" | md5sum | cut -c1-8); rm -rf /verif/.build/crate-$T /verif/.build/bin-$T /verif/.build/build-*-$T.log
